@@ -80,19 +80,12 @@ def step (c : Cfg ρ β) (s : State β) : Ev → Option (State β)
                     count := s.count + (if c.ok (c.lint i) then 1 else 0) }
     else none
 
-/-- Class of the one defect of the unchanged code the check exhibits.  It concerns *what reaches the
-disk*, not the handler lists: in the parallel path (`max_workers > 1`) `Reporter.output` runs on handler
-**copies** unpickled from the manager dict; the `LazyTextfile` behind such a copy is never closed
-explicitly, only by its `__del__` when the copy is garbage collected or at interpreter shutdown, where
-the finalisation order of the text wrapper and its buffer is undefined — the violations file of a
-stand-alone `lint_files(max_workers=2)` run is empty after the process has exited.  The serial path
-(`max_workers = 1`) closes the files when `lint_files` returns. -/
-def KnownOutputLost (w : Nat) : Bool := decide (1 < w)
-
-/-- what is guaranteed to be on disk for handler `k` once the run is over: the handler list in the
-serial path, nothing in the parallel path (`none` = unspecified, observed empty) -/
-def onDisk (c : Cfg ρ β) (s : State β) (k : Nat) : Option (List β) :=
-  if KnownOutputLost c.w then none else some (s.outs k)
+/-- what is on disk for handler `k` once `Reporter.output` has run: the handler list.  `LazyTextfile.write`
+flushes after every write (since the `fix:` commit recorded in `known_findings.json`, class
+`parallel-output-lost`), so this no longer depends on when the handler object — in the parallel path a
+copy unpickled from the manager dict — is garbage collected.  The former behaviour is kept in
+`LokiModel/Findings/C42.lean`. -/
+def onDisk (_c : Cfg ρ β) (s : State β) (k : Nat) : Option (List β) := some (s.outs k)
 
 def isFinal (s : State β) : Bool := s.pending.isEmpty && s.running.isEmpty
 
